@@ -5,6 +5,7 @@ np.empty_like get pre-filled outputs) + metamorphic relations over a registry of
 library's numerical routines.
 """
 import os
+import warnings
 
 import numpy as np
 import scipy.sparse
@@ -420,6 +421,14 @@ def b_kcenters(a):
     return (lambda: kc.kcenters(X, a["metric"], n_clusters=a["k"])), [X]
 
 
+def b_kcenters_warm(a):
+    """warm start from a python LIST of frames (what a previous result's `.centers` is), one more center wanted"""
+    X = points(a)
+    m = max(1, min(a["k"], len(X) - 1))
+    init = [X[i].copy() for i in range(m)]
+    return (lambda: kc.kcenters(X, a["metric"], n_clusters=m + 1, init_centers=init)), [X, init]
+
+
 def b_kmedoids(a):
     X = points(a)
     return (lambda: km.kmedoids(X, a["metric"], n_clusters=a["k"], n_iters=a["n_iters"], random_state=a["rs"])), [X]
@@ -696,6 +705,7 @@ ROUTINES = {
     "assign_to_nearest_center": (points_args(), b_assign),
     "find_cluster_centers": (points_args(), b_find_centers),
     "kcenters": (points_args(), b_kcenters),
+    "kcenters_warm": (points_args(), b_kcenters_warm),
     "kmedoids": (points_args(), b_kmedoids),
     "hybrid": (points_args(), b_hybrid),
     "libdist.euclidean": (points_args(), b_dist("euclidean")),
@@ -907,6 +917,46 @@ def run_workers(case):
     return Info(len(case["procs"]) >= 2 and case["n_trials"] >= 3, ["workers=%s" % case["procs"]])
 
 
+# --------------------------------------------------------------------------
+# BACE's pruning step for every worker count: the split of the states over the workers may not lose or duplicate a state
+
+@st.composite
+def prune_case(draw):
+    return {"n": draw(st.integers(4, 130)), "seed": draw(st.integers(0, 10 ** 6))}
+
+
+def exhaustive_prune(tier, shard, nshards):
+    """every number of states from 4 to 130 against every worker count from 2 to 16 (thorough only)"""
+    if tier != "thorough":
+        return None
+    return ({"n": n, "seed": n} for n in range(4, 131) if n % nshards == shard)
+
+
+def run_prune_workers(case):
+    from enspara.msm import bace as bace_mod
+    n = case["n"]
+    rng = rs(case["seed"])
+    block = np.arange(n) * 4 // n
+    C = np.where(block[:, None] == block[None, :], rng.poisson(40, (n, n)), rng.poisson(0.6, (n, n)))
+    C = (C + C.T).astype(np.float64)
+    np.fill_diagonal(C, 2000 + rng.poisson(50, n))
+    for k in range(0, n, 7):                 # some barely sampled states, so that the step has something to prune
+        C[k, :] *= 0.001
+        C[:, k] *= 0.001
+    before = C.copy()
+    with warnings.catch_warnings():
+        warnings.simplefilter("ignore")
+        ref = [np.asarray(x) for x in bace_mod.baysean_prune(C, n_procs=1)]
+        for p in range(2, 17):
+            got = [np.asarray(x) for x in bace_mod.baysean_prune(C, n_procs=p)]
+            require(len(got) == len(ref) and all(np.array_equal(a, b) for a, b in zip(ref, got)),
+                    "baysean_prune: the result depends on the number of worker processes", n_states=n, n_procs=p,
+                    kept_serial=len(ref[2]), kept_parallel=len(got[2]) if len(got) > 2 else None)
+    require(np.array_equal(C, before), "baysean_prune modified the counts passed to it")
+    return Info(len(ref[2]) < n, ["prune_n=%s" % ("<32" if n < 32 else "<64" if n < 64 else "64+"),
+                                  "prune_removed_some=%s" % (len(ref[2]) < n)], key=[n, case["seed"]])
+
+
 def run_denominator(case):
     """AST accounting clause: the list of masked call sites must be fully reachable by the registry (reported)."""
     root = os.path.dirname(enspara.__file__)
@@ -979,6 +1029,9 @@ CLAUSES = [
     Clause("threads_long_inputs", routine_case(LONG), run_case, quick=24, thorough=400),
     Clause("iterative_eigensolver_branch", big_sparse_args(), run_big_sparse, quick=8, thorough=80),
     Clause("worker_processes", worker_case(), run_workers, quick=12, thorough=120),
+    Clause("prune_worker_counts", prune_case(), run_prune_workers, quick=64, thorough=0, exhaustive=exhaustive_prune,
+           doc="bace.baysean_prune on 4..130 states with 2..16 worker processes equals the serial result (every number of "
+               "states in the thorough tier)"),
     Clause("ast_denominator", st.just({"ast": True}), run_denominator, quick=4, thorough=16),
 ]
 MATCHERS = {}
